@@ -210,6 +210,16 @@ static void run(void) {
         }
         int nr = VF_T(300, 6000);
         for (int i = 0; i < nr; i++) check_cell(vf_rand_cell(&r, res), 0, 1);
+        /* a dense walk along the 30 icosahedron edges (see mon_C10.c) */
+        int nper = res >= 14 ? VF_T(40, 400) : res >= 12 ? VF_T(12, 120) : VF_T(4, 40), cap = 90 * nper;
+        H3Index *ew = malloc((size_t)cap * 8);
+        int ne = vf_edge_walk_cells(res, nper, &r, ew, cap);
+        for (int i = 0; i < ne; i++)
+            if (VF_MINE(idx++)) {
+                check_cell(ew[i], 0, 1);
+                vf_add("edgewalk.cells", 1);
+            }
+        free(ew);
     }
     vf_buf_free(d);
     vf_add("cells", n_cells);
